@@ -166,10 +166,22 @@ impl AgentRun {
                 let cls = crate::fam_mtype::cls_from(p[2].parse().unwrap());
                 let to = addr_of(p[4]);
                 let now = self.at(p[5].parse().unwrap());
-                let payload = unhex(p[6]).unwrap();
                 let mut b = Message::builder(MessageType::from_class_method(cls, BINDING), tid.into());
-                if !payload.is_empty() {
-                    b.add_raw_attribute(RawAttribute::new(0x8022.into(), &payload)).unwrap();
+                // payload: `-`, the value of one SOFTWARE attribute, or `ty:value+ty:value...` raw attributes
+                let mut raws: Vec<(u16, Vec<u8>)> = vec![];
+                if p[6].contains(':') {
+                    for item in p[6].split('+') {
+                        let (t, v) = item.split_once(':').unwrap();
+                        raws.push((u16::from_str_radix(t, 16).unwrap(), unhex(v).unwrap()));
+                    }
+                } else {
+                    let payload = unhex(p[6]).unwrap();
+                    if !payload.is_empty() {
+                        raws.push((0x8022, payload));
+                    }
+                }
+                for (t, v) in &raws {
+                    b.add_raw_attribute(RawAttribute::new((*t).into(), v)).unwrap();
                 }
                 if let Some(k) = p[3].strip_prefix("1:") {
                     b.add_message_integrity(&key_creds(k), IntegrityAlgorithm::Sha1).unwrap();
@@ -423,7 +435,29 @@ pub fn history(rng: &mut Rng, len: usize, tr: &str, timing: bool) -> String {
                 let now = g.next_now();
                 // message contents: empty, short, or anything up to the SOFTWARE limit
                 let n = if g.rng.chance(1, 6) { 1 + g.rng.below(700) as usize } else { g.rng.below(3) as usize * 5 };
-                let payload = hex_or_dash(&g.rng.bytes(n));
+                let mut payload = hex_or_dash(&g.rng.bytes(n));
+                if g.rng.chance(1, 4) {
+                    // attributes of other (registered or unknown) types: the agent must treat the contents as opaque
+                    const REGISTERED: [(u16, usize); 30] = [(0x0001, 8), (0x0003, 4), (0x000c, 4), (0x000d, 4), (0x0012, 8), (0x0013, 5),
+                        (0x0016, 8), (0x0017, 4), (0x0018, 1), (0x0019, 4), (0x001a, 0), (0x001b, 12), (0x0022, 8), (0x0026, 7), (0x0027, 4),
+                        (0x002a, 4), (0x8000, 4), (0x8001, 8), (0x8004, 8), (0x8025, 4), (0x8027, 4), (0x802b, 8), (0x802c, 8), (0x802d, 4),
+                        (0x802e, 6), (0x8030, 9), (0xc001, 4), (0xc057, 4), (0x0024, 4), (0x802a, 8)];
+                    let k = 1 + g.rng.below(3) as usize;
+                    let mut seen: Vec<u16> = vec![];
+                    let mut items: Vec<String> = vec![];
+                    for _ in 0..k {
+                        let (t, l) = if g.rng.chance(3, 4) { *g.rng.pick(&REGISTERED) } else { (g.rng.next() as u16, g.rng.below(9) as usize) };
+                        if t == 0x0008 || t == 0x001c || t == 0x8028 || seen.contains(&t) {
+                            continue;
+                        }
+                        seen.push(t);
+                        let l = if g.rng.chance(4, 5) { l } else { g.rng.below(13) as usize };
+                        items.push(format!("{:04x}:{}", t, hex_or_dash(&g.rng.bytes(l))));
+                    }
+                    if !items.is_empty() {
+                        payload = items.join("+");
+                    }
+                }
                 if cls == 0 {
                     g.sent_keys.push((ti, ig.clone()));
                 }
